@@ -265,4 +265,132 @@ theorem inv_flush_compute {s : Sys} {t : Nat} {x x' : Task} (h : Inv s) (hx : s.
     have hfl0 : ind s.flushed = 0 := by rw [hfl]; rfl
     num_close h
 
+/-- what `_wakeup_next` does to the numbers -/
+theorem abs_wake (g : Bool) (s1 : Sys) (hG : G1 s1) :
+    (abs (wake g s1)).ql = (abs s1).ql ∧ (abs (wake g s1)).tw = (abs s1).tw ∧ (abs (wake g s1)).dq = (abs s1).dq ∧
+    (abs (wake g s1)).pl = (abs s1).pl ∧ (abs (wake g s1)).rl = (abs s1).rl ∧ (abs (wake g s1)).unf = (abs s1).unf ∧
+    (abs (wake g s1)).waiting = (abs s1).waiting ∧ (abs (wake g s1)).maxsize = (abs s1).maxsize ∧
+    (abs (wake g s1)).cancels = (abs s1).cancels ∧ (abs (wake g s1)).pcN = (abs s1).pcN ∧
+    (abs (wake g s1)).closed = (abs s1).closed ∧ (abs (wake g s1)).flushed = (abs s1).flushed ∧
+    (abs (wake g s1)).inGet = (abs s1).inGet ∧ (abs (wake g s1)).owed = (abs s1).owed ∧
+    (abs (wake g s1)).fresh = (abs s1).fresh ∧ (abs (wake g s1)).rDone = (abs s1).rDone ∧
+    (abs (wake g s1)).canc = (abs s1).canc ∧
+    (if g then
+      ((abs (wake g s1)).pG + (abs (wake g s1)).wG = (abs s1).pG + (abs s1).wG ∧
+       (0 < (abs s1).pG → (abs (wake g s1)).wG = (abs s1).wG + 1) ∧
+       (abs s1).wG ≤ (abs (wake g s1)).wG ∧ (abs (wake g s1)).wG ≤ (abs s1).wG + 1 ∧
+       (abs (wake g s1)).pP = (abs s1).pP ∧ (abs (wake g s1)).wP = (abs s1).wP)
+    else
+      ((abs (wake g s1)).pP + (abs (wake g s1)).wP = (abs s1).pP + (abs s1).wP ∧
+       (0 < (abs s1).pP → (abs (wake g s1)).wP = (abs s1).wP + 1) ∧
+       (abs s1).wP ≤ (abs (wake g s1)).wP ∧ (abs (wake g s1)).wP ≤ (abs s1).wP + 1 ∧
+       (abs (wake g s1)).pG = (abs s1).pG ∧ (abs (wake g s1)).wG = (abs s1).wG)) := by
+  have e := wake_eff g s1 hG
+  obtain ⟨o1, o2, o3, o4, o5, o6, o7⟩ := e.others
+  have e1 := e.sumPW; have e2 := e.wokUp; have e3 := e.wokLe
+  simp only [abs, wake_queue, wake_maxsize, wake_unfinished, wake_closed, wake_flushed, wake_waiting, wake_putLog,
+    wake_recvLog, wake_preClose, wake_cancels]
+  refine ⟨trivial, trivial, trivial, trivial, trivial, trivial, trivial, trivial, trivial, trivial, trivial, trivial, o3, o4, o5, o6, o7, ?_⟩
+  cases g
+  · simp only [Bool.false_eq_true, if_false]
+    simp only [Bool.not_false] at o1 o2
+    exact ⟨e1, e2, e3.1, e3.2, o1, o2⟩
+  · simp only [if_true]
+    simp only [Bool.not_true] at o1 o2
+    exact ⟨e1, e2, e3.1, e3.2, o1, o2⟩
+
+/-- `put_nowait(item)` by a sender / flusher that found room -/
+theorem inv_put {s : Sys} {t : Nat} {x x' : Task} {it : Item} (h : Inv s) (hx : s.tasks[t]? = some x)
+    (hwx : x.wait = .ready ∨ x.wait = .blocked false .woken) (hw' : x'.wait = .ready)
+    (hm' : x'.mustCancel = x.mustCancel) (hfr : mFresh x = 0) (hnf' : x'.code ≠ .flusher none)
+    (hf' : x'.code.isFlusher = x.code.isFlusher)
+    (hnext : x.code.nextSeq ≤ x'.code.nextSeq)
+    (hdata : ∀ a b, it = .data a b → a = t ∧ b = x.code.nextSeq ∧ x'.code.nextSeq = b + 1 ∧
+      owedOf x.code = 0 ∧ owedOf x'.code = 0)
+    (hflush : it = .flush → owedOf x.code = owedOf x'.code + 1)
+    (hroom : s.maxsize = 0 ∨ s.queue.length < s.maxsize) :
+    Inv (putNowait (s.setTask t x') it) := by
+  obtain ⟨dP, dW, dI, dO, dF, dR, dC⟩ := delta x' hx
+  have dPt := dP true; have dPf := dP false; have dWt := dW true; have dWf := dW false
+  clear dP dW
+  have hge := tsum_ge (f := mOwed) hx
+  have m1 : mFresh x' = 0 := by simp [mFresh, hnf']
+  rw [m1, hfr] at dF
+  -- the state before the wake-up
+  have hs1 : SInv { s.setTask t x' with queue := s.queue ++ [it], unfinished := s.unfinished + 1, putLog := if it.isData then s.putLog ++ [it] else s.putLog } := by
+    refine ⟨?_, ?_, ?_, ?_, h.st.preCl, ?_⟩
+    · show (if it.isData then s.putLog ++ [it] else s.putLog) = List.map Prod.snd s.recvLog ++ List.filter Item.isData (s.queue ++ [it])
+      rw [List.filter_append, h.st.fifo]
+      cases it <;> simp [Item.isData, List.filter]
+    · show ∀ a b, Item.data a b ∈ (if it.isData then s.putLog ++ [it] else s.putLog) → b < nextAt (s.tasks.set t x') a
+      intro a b hab
+      cases it with
+      | flush => exact uniq_mono h.st.uniq (nextAt_set_le hx hnext) a b (by simpa [Item.isData] using hab)
+      | data c d =>
+        simp only [Item.isData, if_true, List.mem_append, List.mem_singleton] at hab
+        rcases hab with hab | hab
+        · exact uniq_mono h.st.uniq (nextAt_set_le hx hnext) a b hab
+        · cases hab
+          obtain ⟨e1, e2, e3, _⟩ := hdata a b rfl
+          subst e1
+          rw [nextAt_set_self _ hx, e3]; omega
+    · show (if it.isData then s.putLog ++ [it] else s.putLog).Pairwise SendOrd
+      cases it with
+      | flush => simpa [Item.isData] using h.st.ord
+      | data c d =>
+        simp only [Item.isData, if_true]
+        rw [List.pairwise_append]
+        refine ⟨h.st.ord, by simp, ?_⟩
+        intro y hy z hz
+        simp at hz; subst hz
+        cases y with
+        | flush => trivial
+        | data a b =>
+          intro hac
+          subst hac
+          obtain ⟨e1, e2, _⟩ := hdata a d rfl
+          have := h.st.uniq a b hy
+          subst e1
+          simp only [nextAt, hx] at this
+          omega
+    · exact g1_set (s := s) h.st.g1 hx rfl (mem_dq_same _ _ rfl rfl) (by intro g hg; rw [hw'] at hg; cases hg)
+    · show ∀ (u : Nat) (y : Task), (s.tasks.set t x')[u]? = some y → y.code.isFlusher = true → mCanc y = 0 ∧ s.closed = true
+      refine fl_set h.st.fl hx ?_
+      intro hf
+      have := h.st.fl t x hx (by rw [← hf']; exact hf)
+      refine ⟨?_, this.2⟩
+      rcases hwx with hw | hw <;> simp [mCanc, Wait.isCancelled, hw, hw', hm'] at this ⊢ <;> exact this.1
+  have hql : (s.queue ++ [it]).length = s.queue.length + 1 := by simp
+  obtain ⟨t1, t2, t3⟩ := takeWhile_append_len Item.isData s.queue it
+  have hdq : (List.filter Item.isData (s.queue ++ [it])).length =
+      (List.filter Item.isData s.queue).length + (if it.isData = true then 1 else 0) := by
+    rw [List.filter_append]; cases it <;> simp [Item.isData, List.filter]
+  have hpl : (if it.isData = true then s.putLog ++ [it] else s.putLog).length =
+      s.putLog.length + (if it.isData = true then 1 else 0) := by
+    cases it <;> simp [Item.isData]
+  generalize hS1 : ({ s.setTask t x' with queue := s.queue ++ [it], unfinished := s.unfinished + 1, putLog := if it.isData then s.putLog ++ [it] else s.putLog } : Sys) = S1 at hs1
+  have hgoal : putNowait (s.setTask t x') it = wake true S1 := by rw [← hS1]; rfl
+  rw [hgoal]
+  constructor
+  · exact sinv_wake true hs1
+  · have hwk := abs_wake true S1 hs1.g1
+    generalize abs (wake true S1) = a' at hwk ⊢
+    subst hS1
+    simp only [abs, Sys.setTask, if_true] at hwk
+    cases it with
+    | flush =>
+      have hfo := hflush rfl
+      simp only [Item.isData, Bool.false_eq_true, if_false, forall_const, false_implies] at t2 t3 hdq hpl hwk
+      rcases hwx with hw | hw <;>
+        simp [mPend, mWok, mInGet, mOwed, mRecvDone, mCanc, Wait.inGet, Wait.isCancelled, hw, hw', hm']
+          at dPt dPf dWt dWf dI dO dR dC hge <;>
+        num_close h
+    | data a b =>
+      obtain ⟨_, _, _, ho1, ho2⟩ := hdata a b rfl
+      simp only [Item.isData, if_true, forall_const] at t2 t3 hdq hpl hwk
+      rcases hwx with hw | hw <;>
+        simp [mPend, mWok, mInGet, mOwed, mRecvDone, mCanc, Wait.inGet, Wait.isCancelled, hw, hw', hm', ho1, ho2]
+          at dPt dPf dWt dWf dI dO dR dC hge <;>
+        num_close h
+
 end Bp.Chan
